@@ -3,7 +3,7 @@
 import sys, json, os
 here = os.path.dirname(os.path.dirname(os.path.abspath(__file__)))
 desc = {d["name"]: d["description"] for d in json.load(open(os.path.join(here, "benign/benign.json")))}
-for a in "ABCD":
+for a in "ABCDEF":
     p = os.path.join(here, f"benign/NOTES.agent{a}.md")
     if os.path.exists(p):
         desc.setdefault(f"agent{a}", "see benign/NOTES.agent%s.md" % a)
@@ -16,7 +16,7 @@ for f in sys.argv[1:]:
             continue
         rows[c[0]] = c
 out = ["# Control group: behaviour-preserving changes", "",
-       "Each change keeps all 18 properties true (see `make.py` for the own ones, `NOTES.agentA.md` .. `NOTES.agentD.md` for those written by four sub-agents that were given the 18 statements).",
+       "Each change keeps all 18 properties true (see `make.py` for the own ones, `NOTES.agentA.md` .. `NOTES.agentF.md` for those written by six sub-agents that were given the 18 statements).",
        "`benign/run.sh` applies one at a time in an isolated copy, runs grenad's own tests, then every quick check. A cell other than 0 would be a false alarm (1) or a machinery failure (other).", "",
        "| change | tests | " + " | ".join(header[2:]) + " |", "|---|---|" + "---|" * (len(header) - 2)]
 bad = []
